@@ -892,5 +892,48 @@ def bounds_honoured(ctx):
     return res
 
 
-RULES = [bounds_honoured, index_edit, c17_coating_media, c01_init_stores, c01_pickup, operand_chain, apply_result, push_before_run, undo_updates, merit, scale_inverse,
+def update_fixpoint(ctx):
+    """'pickups and solves are satisfied' when an optimiser returns and
+    're-evaluating the merit function reproduces the returned objective':
+    every objective evaluation ends in Optic.update.  If that applies the
+    pickups once and then the solves once, a pickup whose source is moved by
+    a solve copies the value of the previous evaluation: the lens handed to
+    the merit function is not a function of x alone."""
+    P = ctx.P
+    res = Result('UPDATE-FIXPOINT', 'Optic.update leaves pickups and solves '
+                 'satisfied together (pickups re-applied after the solves, or '
+                 'iterated to a fixed point)')
+    f = P.func('Optic.update')
+    res.saw(f)
+    seq = []
+    loop = False
+    for n in ast.walk(f.node):
+        if isinstance(n, (ast.For, ast.While)) and \
+                'apply' in unparse(n, 100000):
+            loop = True
+    for st in f.node.body:
+        for c in ast.walk(st):
+            if isinstance(c, ast.Call) and isinstance(c.func, ast.Attribute) \
+                    and c.func.attr == 'apply':
+                seq.append(unparse(c.func.value).split('.')[-1])
+    if 'pickups' not in seq or 'solves' not in seq:
+        raise AnalysisError(f'Optic.update: apply sequence {seq}')
+    last_solve = max(i for i, s_ in enumerate(seq) if s_ == 'solves')
+    if loop or any(s_ == 'pickups' for s_ in seq[last_solve + 1:]):
+        res.ok(f'apply sequence {seq}{" in a loop" if loop else ""}')
+    else:
+        res.fail(ctx.finding(
+            'UPDATE-FIXPOINT', f, f.node,
+            f'Optic.update applies {seq} once: a thickness pickup that reads '
+            f'a gap set by a marginal-ray-height solve copies the gap of the '
+            f'previous evaluation; the optimisers return objectives that the '
+            f'returned lens does not reproduce (LeastSquares 0.04638 vs '
+            f'0.05160, DifferentialEvolution 0.03232 vs 0.04228), leave '
+            f'T3 - T2 = -8.30 mm (DualAnnealing), and undo() leaves the '
+            f'vertices 3-7 mm off',
+            construct='pickups applied once, before the solves'))
+    return res
+
+
+RULES = [update_fixpoint, bounds_honoured, index_edit, c17_coating_media, c01_init_stores, c01_pickup, operand_chain, apply_result, push_before_run, undo_updates, merit, scale_inverse,
          get_set_symmetry, var_dispatch, bounds_units]
